@@ -130,6 +130,21 @@ func checkC08(p *Prog, r *Report) {
 						continue
 					}
 					fld, _ := rawFieldLoad(mu.Map)
+					if fld == "" {
+						// a per-family exporter that is handed the map to fill: the argument at its call site names the field
+						if prm, isPrm := mu.Map.(*ssa.Parameter); isPrm {
+							for _, cs := range callSites(exp) {
+								if cs.Callee != eu.fn {
+									continue
+								}
+								for i, fp := range eu.fn.Params {
+									if fp == prm && i < len(cs.Instr.Common().Args) {
+										fld, _ = rawFieldLoad(cs.Instr.Common().Args[i])
+									}
+								}
+							}
+						}
+					}
 					if eu.resultField != "" && returnedFreshMap(eu.fn, mu.Map) {
 						// a per-family exporter: the map it builds and returns is what ExportGenesis stores into that field
 						fld = eu.resultField
@@ -484,8 +499,10 @@ func checkC08(p *Prog, r *Report) {
 			if !x.written {
 				continue
 			}
-			r.Check(x.exported && x.imported, kp("WMC", "did-family:"+f+"#exported+imported"), "every family of the did store that handlers write is read by ExportGenesis and written by InitGenesis", "x/did/genesis.go",
-				"exported and imported", fmt.Sprintf("family %s is written by handlers but exported=%v imported=%v: that state is lost across export/import", f, x.exported, x.imported))
+			// a family the import writes without the export reading it is derived data: InitGenesis rebuilds it from the exported
+			// entries (an index, a marker set). What is neither exported nor rebuilt is lost.
+			r.Check(x.imported, kp("WMC", "did-family:"+f+"#exported+imported"), "every family of the did store that handlers write is written by InitGenesis too (from the exported family itself, or rebuilt from the exported entries)", "x/did/genesis.go",
+				fmt.Sprintf("exported=%v imported=%v", x.exported, x.imported), fmt.Sprintf("family %s is written by handlers but exported=%v imported=%v: that state is lost across export/import", f, x.exported, x.imported))
 		}
 	}
 
